@@ -51,6 +51,17 @@ var c08Progs = []string{
 	`k+3|numbers(n).map(x->cnt(x)).multiUse({a:l->l.first(),b:l->l.present(x->x>=k)}).b`,
 	`4|numbers(n).map(x->cnt(x)).multiUse({a:l->l.first(),b:l->l.top(2).size()}).a`,
 	`4|numbers(n).map(x->cnt(x)).merge(numbers(n).map(x->cnt(x)),(p,q)->p<q).first()`,
+	// list ~ list: the searched-for items decide how far the pipeline is read
+	`1|[] ~ numbers(n).map(x->cnt(x))`,
+	`3|[0,1] ~ numbers(n).map(x->cnt(x))`,
+	`k+2|[k] ~ numbers(n).map(x->cnt(x))`,
+	`1|[] ~ numbers(n).map(x->fail(cnt(x)))`,
+	// elements that are lazy pipelines themselves stay lazy on their way through stages and multiUse
+	`2|numbers(n).map(i->numbers(n).map(j->cnt(j))).first().first()`,
+	`3|numbers(n).map(i->numbers(n).map(j->cnt(j))).multiUse({a:l->l.first().first(),b:l->l.top(1).size()}).a`,
+	`k+3|numbers(n).map(i->numbers(n).map(j->cnt(j))).multiUse({a:l->l.first().present(x->x>=k),b:l->l.top(1).size()}).a`,
+	`3|try numbers(6).map(i->numbers(20).map(j->fail(cnt(j)))).multiUse({a:l->l.first().first(),b:l->l.top(2).size()}).a catch e->e`,
+	`2|numbers(n).map(i->numbers(n).map(j->cnt(j))).skip(1).first().first()`,
 	// in-memory sources
 	`1|[0,1,2,3,4,5,6,7].map(x->cnt(x)).first()`,
 	`k+2|[0,1,2,3,4,5,6,7].map(x->cnt(x)).present(x->x>=k)`,
@@ -79,7 +90,7 @@ var c08Progs = []string{
 func c08Jobs(tier string, seed int64) []string {
 	var jobs []string
 	for _, p := range c08Progs {
-		jobs = append(jobs, "@noleak=1,steps=4000000@"+p)
+		jobs = append(jobs, "@noleak=1,steps=1500000,paths=80,decisions=400@"+p)
 	}
 	return jobs
 }
